@@ -131,9 +131,15 @@ FULL STATEMENT `space_unroll_iso` (NOT PROVED in Lean; oracle `space-state`): fo
 `N = [C]`, `shots = 1`, register `range (T + C − 1)`,
 `unrollProgram cfg true prog 1 q = (range T).flatMap fun g => binCmds cfg prog ((range C).map (· + g)) g`.
 
-FULL STATEMENT `crop_delay` (NOT PROVED in Lean; checked by correspondence `tdm.pad` and the
-`crop-vs-padding` oracle): `alphas.length = delays.length →
-cropValue (padded alphas delays) delays = padCrop alphas delays`. -/
+-/
+
+/-- **crop/delay consistency.**  For all beamsplitter argument lists and loop delays, the crop value
+that `vacuum_padding` announces for the un-padded arguments is the crop value `get_crop_value` computes
+from the program built with the padded arguments (prologue and epilogue zeros included; an all-zero
+list imposes the full delay). -/
+theorem crop_delay (alphas : List (List Int)) (delays : List Nat) :
+    cropValue (padded alphas delays) delays = padCrop alphas delays :=
+  crop_of_padded alphas delays
 
 /-- the docstring example of `reshape_samples` (two bands, the second measured at its second mode),
 evaluated in the model -/
@@ -170,6 +176,10 @@ theorem reshape_space_unrolled_counterexample :
       [0] [2] 3 ≠ [(0, [[0, 1, 2]])] := by decide
 
 /-! ## non-vacuity -/
+
+example : padded [[0, 0, 3, 1], [0, 0, 0, 0], [2, 0, 0, 5]] [1, 3, 2] =
+      [[0, 0, 3, 1, 0, 0, 0, 0], [0, 0, 0, 0, 0, 0, 0, 0], [0, 0, 0, 0, 2, 0, 0, 5]] ∧
+    padCrop [[0, 0, 3, 1], [0, 0, 0, 0], [2, 0, 0, 5]] [1, 3, 2] = 4 := by decide
 
 example : unrollProgram exCfg false exProg 2 [0, 1, 2] ≠ [] ∧
     (unrollProgram exCfg false exProg 2 [0, 1, 2]).length = 24 ∧
